@@ -113,6 +113,24 @@ Theorem converters_stable_errno_timeout_before_fix :
 Proof. exact fs_errno_timeout_before_fix_l. Qed.
 Print Assumptions converters_stable_errno_timeout_before_fix.
 
+(* 3b. Errors that ALREADY have a library kind.  For every converter (0 ConvertFileSystemError, 1 ConvertIOError,
+      2 ConvertProcessError, 3 platform.ConvertError) and every kind it is expected to leave alone ([expected_pass], written
+      by hand in Conv.v: the intent the generated tables are checked against): the sentinel itself and every library error
+      built on it keep exactly that kind WHATEVER their messages say (m, m' arbitrary bytes: trigger texts of other rules,
+      texts of wrapped causes, ...).  The unrestricted statement ("every library kind is kept") is false of the code as it
+      is, see the Example below. *)
+Theorem kind_preserved_for_library_errors : forall conv k m m', In conv [0; 1; 2; 3]%Z -> In k (expected_pass conv) ->
+  res_kinds (conv_by conv (BK k)) = Some [k] /\
+  res_kinds (conv_by conv (BWrap m (BK k))) = Some [k] /\
+  res_kinds (conv_by conv (BWrap m' (BWrap m (BK k)))) = Some [k].
+Proof. exact kind_preserved_for_library_errors_l. Qed.
+Print Assumptions kind_preserved_for_library_errors.
+
+Example kind_preservation_unrestricted_false :
+  exists k m, (k < nkinds)%nat /\ res_kinds (conv_platform (b_new k m)) <> Some [k] /\
+              res_kinds (conv_fs (b_new k m)) <> Some [k].
+Proof. exact kind_preservation_unrestricted_false_l. Qed.
+
 (* 4. Every name of the generated tables (predicate helper, errors.Is target, pre-step) is one this model interprets. *)
 Theorem converter_tables_wellformed : tables_ok = true.
 Proof. exact tables_ok_l. Qed.
